@@ -318,6 +318,9 @@ def post_dual(ctx, call):
                 X.proj_residual(np.asarray(back.array[p]).ravel(), Mc[p].ravel()) for p in R.positions(fs, 12))
             ctx.judge("dual", r <= 1e-8 and back.is_dual == self.is_dual, [self], what=f"dual.dual differs from the quadric (residual {r:.3g})", op="dual.dual",
                       feat={"cls": type(self).__name__}, nontrivial=True)
+            # the quadric of the tangent hyperplanes of the dual is the quadric itself, as the same kind of object (a conic stays a conic)
+            ctx.judge("dual", type(back) is type(self), [self], what=f"dual.dual of a {type(self).__name__} is a {type(back).__name__}", op="dual.dual", feat={"cls": type(self).__name__},
+                      nontrivial=True)
         except Exception as e:
             ctx.judge("dual", False, [self], what=f"dual.dual raised {type(e).__name__}", op="dual.dual", feat={"cls": type(self).__name__})
 
@@ -478,6 +481,18 @@ def g_generic(ctx, rng, i):
             lm = _try(mk, p, q)
             if lm is not None:
                 _try(Qm.intersect, lm)
+    # the dual taken first and moved afterwards is the dual of the moved quadric (non-orthogonal maps, translations)
+    if abs(np.linalg.det(A.astype(float))) > 0.5:
+        vt = g.Point(*gen.coords(rng, (dim,), 4, "int").tolist())
+        for name, mv in (("t*q", lambda q_: t * q_), ("q+v", lambda q_: q_ + vt), ("q-v", lambda q_: q_ - vt)):
+            try:
+                lhs, rhs = mv(Q.dual), mv(Q).dual
+                r = X.proj_residual(np.asarray(lhs.array, dtype=complex).ravel(), np.asarray(rhs.array, dtype=complex).ravel())
+                ok = r <= 1e-8 * max(1.0, float(np.linalg.cond(A.astype(float))) * float(np.linalg.cond(tm.astype(float))) ** 2) and bool(lhs.is_dual) and bool(rhs.is_dual)
+                ctx.judge("dual", ok, [A, tm], what=f"{name}: the moved dual is not the dual of the moved quadric (residual {r:.3g}, is_dual {lhs.is_dual}/{rhs.is_dual})", op="dual∘move",
+                          feat={"move": name}, nontrivial=True)
+            except Exception as e:  # noqa: BLE001
+                ctx.judge("dual", False, [A, tm], what=f"{name} on the dual raised {type(e).__name__}: {str(e)[:80]}", op="dual∘move", feat={"move": name, "exc": type(e).__name__})
     # collections
     shape = gen.pick(rng, [(3,), (2, 2)])
     k = int(np.prod(shape))
